@@ -115,6 +115,27 @@ theorem sliceAt_of_ge (ghost : Bool) (sizes : List Nat) (i : Nat) (h : sizes.len
   have h' : (slicesFrom ghost 0 sizes).length ≤ i := by rw [slicesFrom_length]; exact h
   simp [sliceAt, slices1d, List.getD, List.getElem?_eq_none h']
 
+/-! ### one axis, data as a list (design appendix A.15) -/
+
+theorem combine_extract_list_aux {α : Type} (sizes : List Nat) :
+    ∀ (pre data : List α), data.length = sizes.sum →
+      (extractAll (pre ++ data) (slicesFrom false pre.length sizes)).flatten = data := by
+  induction sizes with
+  | nil => intro pre data h; simp at h; simp [slicesFrom, extractAll, h]
+  | cons s ss ih =>
+    intro pre data h
+    simp only [slicesFrom, extractAll, List.flatten_cons, gadd, Bool.false_eq_true, if_false, Nat.add_zero]
+    have hs : s ≤ data.length := by simp at h; omega
+    have e1 : ((pre ++ data).drop pre.length).take (pre.length + s - pre.length) = data.take s := by
+      rw [List.drop_left]; congr 1; omega
+    rw [e1]
+    have e2 : pre ++ data = (pre ++ data.take s) ++ data.drop s := by
+      rw [List.append_assoc, List.take_append_drop]
+    have e3 : pre.length + s = (pre ++ data.take s).length := by
+      simp [List.length_take, Nat.min_eq_left hs]
+    rw [e2, e3, ih (pre ++ data.take s) (data.drop s) (by simp at h ⊢; omega)]
+    exact List.take_append_drop s data
+
 /-! ### the chunk that contains a cell -/
 
 /-- index of the chunk containing cell `g` -/
